@@ -281,7 +281,7 @@ def main():
         "Verus 0.2026.09.13 + Z3 (soundness of the verifier)",
         "Kani 0.68 + CBMC 6.11 + cadical for the K: obligations (loop-free full-domain harnesses count as proved; harnesses marked bounded are listed under bounded_checks and are NOT counted in obligations/discharged)",
         "contract vocabulary /verif/contracts/prelude.rs (definitions; recorder/delivered witnesses rest on linearity and parametricity of generic by-value observers)",
-        "extraction rules R1-R17 of engine/extract.py (syntactic; counted below)",
+        "extraction rules R1-R18 of engine/extract.py (syntactic; counted below)",
         "one-handle stand-in for MutRc/MutArc with a ghost cell identity: simultaneous access through two handles and dynamic borrow/lock acquisition are not modelled (lock scopes only through the borrow / free probes and the Kani lock-scope harnesses)",
         "closures are total and deterministic (Verus models FnMut as a pure relation)",
     ]
